@@ -457,9 +457,15 @@ def gen_ing(rng, names, units):
     return "%s|%s|%s" % (hx(name), q, "-" if note is None else hx(note))
 
 
+CASE_PAIRS = [("T", "t"), ("L", "l"), ("Cup", "cup"), ("G", "g"), ("ML", "ml"), ("É", "é")]
+
+
 def gen_list(rng, maxn):
     names = rng.sample(NAMES, rng.randint(1, 3))
     units = rng.sample(UNITS, rng.randint(1, 3))
+    if rng.random() < 0.3:
+        # units that differ only in case are different keys
+        units = list(rng.choice(CASE_PAIRS)) + units[:1]
     return [gen_ing(rng, names, units) for _ in range(rng.randint(0, maxn))]
 
 
@@ -650,7 +656,7 @@ def run(rep, tier, seed):
                 "by the canonical parser) x 1-2 of %d scaling factors (incl. 0, 1/3, 0.1, 1e-3) - parsed by parse_recipe of "
                 "the bindings and by CooklangParser::canonical + scale, both dumped; rejected texts are counted and skipped "
                 "(outside the statement). C: all distinct permutations of %d lists of <=5 ingredients and %d random lists of "
-                "<=12 (1-3 names and 1-3 units per list so that keys collide; same name with different units; unit None vs "
+                "<=12 (1-3 names and 1-3 units per list so that keys collide; same name with different units, 30%% of the lists with units differing only in case (T/t, L/l, Cup/cup); unit None vs "
                 "\"\"; numbers incl. negatives and 1/3, ranges, texts with quotes/backslashes/newlines/combining marks, no "
                 "amount), each with an index selection (all, subset, with repetitions, 10%% with an out-of-range index). "
                 "distinct_nontrivial = distinct views of recipes with >=1 component + distinct outputs of lists with >=2 "
@@ -663,8 +669,8 @@ def run(rep, tier, seed):
     rep.assumptions = [
         "f64 addition modelled by exact rational addition; deviation bounded by the tolerance and reported",
         "HashMap iteration order is not modelled; maps are compared sorted by key",
-        "Amount's crate-private fields are read from its Debug rendering, cross-checked through combine_ingredients "
-        "on a singleton; a value Empty with a unit is not constructible from Rust outside the crate (model only)",
+        "Amount's crate-private fields are read from its Debug rendering, the value cross-checked through "
+        "combine_ingredients on a singleton; a value Empty with a unit is not constructible from Rust outside the crate (model only)",
         "the index-in-range hypothesis of C19_refs_resolve is C06's invariant (C19_refs_invariant_is_C06); tables "
         "longer than 2^32 are excluded by hypothesis (`as u32` truncates)",
     ]
